@@ -17,6 +17,12 @@ CURVES = ('UnitSquare', 'PiSquare', 'LShape', 'Circle', 'UnitInterval')
 _U = {}
 
 
+def same_entry(a, b):
+    """Is `a` the entry of the same pair as `b`, up to rounding?  (Entries of different pairs differ by far more; whether two
+    evaluations of one pair agree to the last bit is C17's statement, not C04's.)"""
+    return abs(a - b) <= 1e-9 * max(abs(a), abs(b)) + 1e-300
+
+
 def get_universe(key):
     if key not in _U:
         cname, tgrid, Lt, Lx, pre = key
@@ -169,7 +175,7 @@ def pointwise_task(key):
                     out['zero_checks'] += 1
                     if vec[j] != 0.0:
                         out['viols'].append(('evaluate_vector-acausal-nonzero', {'curve': key[0], 't': t, 'x_hat': xh, 'j': j}))
-                elif vec[j] != SLm.evaluate(e, t, xh, g.eval(xh).reshape(2, 1)):
+                elif not same_entry(vec[j], SLm.evaluate(e, t, xh, g.eval(xh).reshape(2, 1))):
                     out['viols'].append(('evaluate_vector-differs', {'curve': key[0], 't': t, 'x_hat': xh, 'j': j}))
     out['viols'] = out['viols'][:4]
     return out
@@ -203,7 +209,7 @@ def matrix_task(item):
             for j, tr in enumerate(T2):
                 out['n'] += 1
                 acausal = te.time_interval[1] <= tr.time_interval[0]
-                if (acausal and B2[i, j] != 0.0) or (not acausal and not (B2[i, j] > 0)) or B2[i, j] != B1[i, len(T1) - 1 - j]:
+                if (acausal and B2[i, j] != 0.0) or (not acausal and not (B2[i, j] > 0)) or not same_entry(B2[i, j], B1[i, len(T1) - 1 - j]):
                     ok = False
                     out['viols'].append(('matrix-second-call-same-length-list', {'cfg': cfgname, 'history': h, 'i': i, 'j': j, 'path': 'serial',
                                                                                  'value': float(B2[i, j]), 'first_call_value': float(B1[i, len(T1) - 1 - j])}))
@@ -222,7 +228,7 @@ def matrix_task(item):
         for i, te in enumerate(Tq):
             for j, tr in enumerate(Sq):
                 out['n'] += 1
-                if Bq[i, j] != SL.bilform(tr, te):
+                if not same_entry(Bq[i, j], SL.bilform(tr, te)):
                     out['viols'].append(('matrix-square-different-lists', {'cfg': cfgname, 'history': h, 'i': i, 'j': j, 'path': 'serial',
                                                                            'value': float(Bq[i, j]), 'single': float(SL.bilform(tr, te))}))
                     done = True
@@ -246,6 +252,31 @@ def matrix_task(item):
                 out['viols'].append(('pool-columns-differ', {'cfg': cfgname, 'history': h, 'cpu': cpu}))
         except Exception as ex:
             out['viols'].append(('pool-path-raised', {'cfg': cfgname, 'history': h, 'cpu': cpu, 'exc': repr(ex)[:200]}))
+    # rows = test, columns = trial, entry by entry: the Galerkin call (ONE list object as test and trial) must carry in position
+    # (i, j) the entry of (test_i, trial_j) - compared with single evaluations on a second operator
+    SLs = SingleLayerOperator(m)
+    G = {'galerkin-default': mats['default']}
+    if N * N < 100 and N >= 2:
+        # also through the large (serial) path: the same list object repeated so that N*M >= 100
+        rep_list = elems * ((100 // (N * N)) + 1)
+        try:
+            G['galerkin-serial'] = SL.bilform_matrix(rep_list, rep_list)
+        except Exception as ex:
+            out['viols'].append(('galerkin-serial-raised', {'cfg': cfgname, 'history': h, 'exc': repr(ex)[:200]}))
+    for name, A in G.items():
+        lst = elems if name == 'galerkin-default' else rep_list
+        bad = None
+        for i, te in enumerate(lst):
+            for j, tr in enumerate(lst):
+                out['n'] += 1
+                if not same_entry(A[i, j], SLs.bilform(tr, te)):
+                    bad = (i, j, float(A[i, j]), float(SLs.bilform(tr, te)))
+                    break
+            if bad:
+                break
+        if bad:
+            out['viols'].append(('matrix-orientation-entrywise', {'cfg': cfgname, 'history': h, 'path': name, 'i': bad[0], 'j': bad[1],
+                                                                          'value': bad[2], 'single': bad[3]}))
     for name, A in mats.items():
         for i, te in enumerate(elems):
             for j, tr in enumerate(elems):
@@ -259,7 +290,7 @@ def matrix_task(item):
         # orientation: an asymmetric pair (test later than trial) pins rows = test, columns = trial
         for i, te in enumerate(elems):
             for j, tr in enumerate(elems):
-                if te.time_interval[0] >= tr.time_interval[1] and A[i, j] != SL.bilform(tr, te):
+                if te.time_interval[0] >= tr.time_interval[1] and not same_entry(A[i, j], SL.bilform(tr, te)):
                     out['viols'].append(('matrix-orientation', {'cfg': cfgname, 'history': h, 'i': i, 'j': j, 'path': name}))
     out['viols'] = out['viols'][:3]
     return out
